@@ -67,7 +67,9 @@ func bloomCached(ctx context.Context, bs Blockstore, bloomSize, hashCount int) (
 }
 
 type bloomcache struct {
-	active atomic.Bool
+	// complete is the filter negative answers may be taken from (nil while
+	// none is): readers get "active" and the filter in ONE atomic load.
+	complete atomic.Pointer[bloom.Bloom]
 
 	// bloom is the live filter. It is swapped atomically by Rebuild, so all
 	// accesses go through Load.
@@ -97,7 +99,7 @@ var (
 )
 
 func (b *bloomcache) BloomActive() bool {
-	return b.active.Load()
+	return b.complete.Load() != nil
 }
 
 func (b *bloomcache) Wait(ctx context.Context) error {
@@ -120,11 +122,12 @@ func (b *bloomcache) build(ctx context.Context) error {
 	b.buildMu.Lock()
 	defer b.buildMu.Unlock()
 
-	if err := b.populate(ctx, b.bloom.Load()); err != nil {
+	target := b.bloom.Load()
+	if err := b.populate(ctx, target); err != nil {
 		b.buildErr = err
 		return err
 	}
-	b.active.Store(true)
+	b.complete.Store(target)
 	return nil
 }
 
@@ -168,13 +171,13 @@ func (b *bloomcache) Rebuild(ctx context.Context) error {
 	// instead leave a block written concurrently with a rebuild as a transient
 	// false negative until the next rebuild: the bloom-pointer atomic orders
 	// only the filter swap, not datastore visibility.
-	b.active.Store(false)
+	b.complete.Store(nil)
 	b.bloom.Store(fresh)
 
 	if err := b.populate(ctx, fresh); err != nil {
 		return err
 	}
-	b.active.Store(true)
+	b.complete.Store(fresh)
 	return nil
 }
 
@@ -231,8 +234,8 @@ func (b *bloomcache) hasCached(k cid.Cid) (has bool, ok bool) {
 		// in case of invalid key is forwarded deeper
 		return false, false
 	}
-	if b.BloomActive() {
-		blr := b.bloom.Load().HasTS(k.Hash())
+	if f := b.complete.Load(); f != nil {
+		blr := f.HasTS(k.Hash())
 		if !blr { // not contained in bloom is only conclusive answer bloom gives
 			b.hits.Inc()
 			return false, true
